@@ -187,6 +187,40 @@ theorem PrefixStable.ext_nil {f : Framer M} (hs : PrefixStable f) {x : Bytes}
     rw [drainAll_err he'] at hno; simp at hno
   | msg m r => have := hs.prog h; simp at this
 
+/-- a framer that never raises and makes progress never ends its loop with an error -/
+theorem drainAll_noErr {f : Framer M} (hp : Progress f) (hne : ∀ b e, f.ext b ≠ .err e) :
+    ∀ (n : Nat) (b : Bytes), b.length ≤ n → (drainAll f b).err = none := by
+  intro n
+  induction n with
+  | zero =>
+    intro b hb
+    have : b = [] := List.eq_nil_of_length_eq_zero (by omega)
+    subst this
+    cases h : f.ext [] with
+    | need => rw [drainAll_need h]
+    | err e => exact absurd h (hne _ _)
+    | msg m r => have := hp h; simp at this
+  | succ n ih =>
+    intro b hb
+    cases h : f.ext b with
+    | need => rw [drainAll_need h]
+    | err e => exact absurd h (hne _ _)
+    | msg m r =>
+      have hlt := hp h
+      rw [drainAll_msg hp h]
+      simpa using ih r (by omega)
+
+/-- streams produced by an encoder the framer inverts are processed without error and
+    yield exactly the encoded messages (valid streams satisfy the `noErr` hypothesis) -/
+theorem drainAll_encoded {f : Framer M} (hp : Progress f) (enc : M → Bytes)
+    (henc : ∀ m x, f.ext (enc m ++ x) = .msg m x) (hnil : f.ext [] = .need) (ms : List M) :
+    drainAll f (ms.flatMap enc) = ⟨ms, [], none⟩ := by
+  induction ms with
+  | nil => simpa using drainAll_need hnil
+  | cons m ms ih =>
+    rw [List.flatMap_cons, drainAll_msg hp (henc m _), ih]
+    rfl
+
 /-! ### Segmentation independence -/
 
 theorem feedAllFrom_concat {f : Framer M} (hs : PrefixStable f) :
